@@ -392,4 +392,100 @@ theorem applyForward_lig (l : Lookup) (hall : l.subtables.all Subtable.isLigatur
             if_false, hb1]
         · simp only [applyLookupFwd, hgs, hxm, hen', Bool.false_and, Bool.false_eq_true, if_false]
 
+theorem ligature_not_reverse (l : Lookup) (hall : l.subtables.all Subtable.isLigatureSt = true) : l.reverse = false := by
+  unfold Lookup.reverse
+  cases hs : l.subtables with
+  | nil => simp
+  | cons st rest =>
+    rw [hs] at hall
+    simp only [List.all_cons, Bool.and_eq_true] at hall
+    have : st.isReverse = false := by
+      cases st <;> simp [Subtable.isLigatureSt] at hall <;> rfl
+    simp [this]
+
+theorem applyLookupFwd_mask0 (f : Font) (level : Nat) (l : Lookup) : ∀ (fuel : Nat) (gs : List G) (i : Nat),
+    applyLookupFwd f level l 0 fuel gs i = gs := by
+  intro fuel
+  induction fuel with
+  | zero => intro gs i; rfl
+  | succ fuel ih =>
+    intro gs i
+    unfold applyLookupFwd
+    cases gs[i]? with
+    | none => rfl
+    | some g => simp only [Nat.and_zero, bne_self_eq_false, Bool.false_and, Bool.false_eq_true, if_false]; exact ih gs (i + 1)
+
+theorem applyLookupFwd_nil (f : Font) (level : Nat) (l : Lookup) (lm fuel i : Nat) :
+    applyLookupFwd f level l lm fuel [] i = [] := by
+  cases fuel with
+  | zero => rfl
+  | succ k => simp [applyLookupFwd]
+
+/-- **`apply_string` of a lookup made of ligature subtables** on the Spec's domain -/
+theorem applyString_lig (l : Lookup) (hall : l.subtables.all Subtable.isLigatureSt = true) (hshort : LigsShort l.subtables)
+    (hp : NoSkipFlags l.props) (hg : Gen.Buf.ensureGrowOnly = true) (hguard : Gen.Buf.extendStartGuard = 1)
+    (c : Ctx) (fuel : Nat) (hps : c.perSyllable = false) (hlv : c.buf.level ≠ 2)
+    (hfl : c.buf.flags &&& Gen.Buf.produceUnsafeToConcat = 0)
+    (hsu : c.buf.successful = true) (hlen : c.buf.len ≤ c.buf.info.length) (hout : c.buf.out.length = c.buf.info.length)
+    (hbud : c.buf.len ≤ c.buf.maxLen)
+    (hplain : ∀ x ∈ c.buf.info.take c.buf.len, Plain x ∧ x.gid < 65536)
+    (hfeat : ∀ x ∈ c.buf.info.take c.buf.len, FeatMask x)
+    (hmono : NonDecr (c.buf.info.take c.buf.len) ∨ NonIncr (c.buf.info.take c.buf.len)) :
+    ∃ c', applyString c l fuel = .ok c' ∧ c'.buf.successful = true ∧ c'.buf.len ≤ c'.buf.info.length ∧
+      (c'.buf.info.take c'.buf.len).map projG
+        = applyLookupFwd c.font c.buf.level l c.lookupMask fuel ((c.buf.info.take c.buf.len).map projG) 0 := by
+  unfold applyString
+  by_cases h0 : (c.buf.len == 0 || c.lookupMask == 0) = true
+  · simp only [h0, if_true, pure, Except.pure]
+    have h0' : c.buf.len = 0 ∨ c.lookupMask = 0 := by simpa using h0
+    refine ⟨c, rfl, hsu, hlen, ?_⟩
+    rcases h0' with h | h
+    · rw [h]; simp [applyLookupFwd_nil]
+    · rw [h, applyLookupFwd_mask0]
+  · simp only [h0, Bool.false_eq_true, if_false, ligature_not_reverse l hall, Bool.not_false, if_true]
+    have hinv0 : Inv ({ c.buf.clearOutput with idx := 0 } : Buf) :=
+      ⟨Nat.zero_le _, by simpa [clearOutput] using hlen, by simpa [clearOutput] using hout,
+        by simp [clearOutput], by simp [clearOutput], by simp [clearOutput]⟩
+    have hin0 : inP ({ c.buf.clearOutput with idx := 0 } : Buf) = c.buf.info.take c.buf.len := by
+      simp [inP, clearOutput]
+    have hout0 : outP ({ c.buf.clearOutput with idx := 0 } : Buf) = [] := by
+      simp [outP, clearOutput]
+    have hI0 : LigInv l c.lookupMask { c with lookupProps := l.props, buf := { c.buf.clearOutput with idx := 0 } } := by
+      refine ⟨hinv0, by simpa [clearOutput] using hsu, rfl, rfl, hps, by simpa [clearOutput] using hlv,
+        by simpa [clearOutput] using hfl, ?_, ?_, ?_, ?_⟩
+      · show ({ c.buf.clearOutput with idx := 0 } : Buf).outLen + (inP ({ c.buf.clearOutput with idx := 0 } : Buf)).length
+            ≤ ({ c.buf.clearOutput with idx := 0 } : Buf).maxLen
+        rw [hin0]; simp [clearOutput]; omega
+      · intro y hy
+        have hy' : y ∈ inP ({ c.buf.clearOutput with idx := 0 } : Buf) := hy
+        rw [hin0] at hy'; exact hplain y hy'
+      · intro y hy
+        have hy' : y ∈ outP ({ c.buf.clearOutput with idx := 0 } : Buf) ++ inP ({ c.buf.clearOutput with idx := 0 } : Buf) := hy
+        rw [hout0, hin0, List.nil_append] at hy'; exact hfeat y hy'
+      · show NonDecr (outP ({ c.buf.clearOutput with idx := 0 } : Buf) ++ inP ({ c.buf.clearOutput with idx := 0 } : Buf)) ∨
+            NonIncr (outP ({ c.buf.clearOutput with idx := 0 } : Buf) ++ inP ({ c.buf.clearOutput with idx := 0 } : Buf))
+        rw [hout0, hin0, List.nil_append]; exact hmono
+    obtain ⟨b', hres, hinv', hsu', hml', hbud', hout'⟩ :=
+      applyForward_lig l hall hshort hp hg hguard c.buf.level hlv c.lookupMask fuel _ hI0
+    have htot : total b' ≤ b'.maxLen := by
+      have h2 := inP_length b' hinv'
+      have h3 : ({ c.buf.clearOutput with idx := 0 } : Buf).outLen
+          + (inP ({ c.buf.clearOutput with idx := 0 } : Buf)).length ≤ c.buf.maxLen := by
+        rw [hin0]; simp [clearOutput]; omega
+      have h4 : b'.maxLen = c.buf.maxLen := by rw [hml']; rfl
+      have h5 : b'.outLen + (inP b').length ≤ ({ c.buf.clearOutput with idx := 0 } : Buf).outLen
+          + (inP ({ c.buf.clearOutput with idx := 0 } : Buf)).length := hbud'
+      unfold total
+      omega
+    obtain ⟨b'', hsync, hsu'', _, hle'', htake⟩ := sync_parts b' hinv' hg hsu' htot
+    simp only [bind, Except.bind, hres, hsync, pure, Except.pure]
+    refine ⟨_, rfl, hsu'', hle'', ?_⟩
+    show (b''.info.take b''.len).map projG = _
+    rw [htake, hout']
+    show applyLookupFwd c.font c.buf.level l c.lookupMask fuel
+        ((outP ({ c.buf.clearOutput with idx := 0 } : Buf) ++ inP ({ c.buf.clearOutput with idx := 0 } : Buf)).map projG)
+        ({ c.buf.clearOutput with idx := 0 } : Buf).outLen = _
+    rw [hout0, hin0, List.nil_append]
+    rfl
+
 end RbModel.Gsub
